@@ -10,6 +10,7 @@ import KyupyVerif.Model.Capture
 import KyupyVerif.Model.MapCert
 import KyupyVerif.Proofs.Solve
 import KyupyVerif.Proofs.GenOpsWO
+import KyupyVerif.Proofs.StripLink
 import KyupyVerif.Gen.Tables
 import KyupyVerif.Drv.Registry
 /-! Line protocol driver: one request per line on stdin, one answer per line on stdout.
@@ -242,6 +243,10 @@ def step (st : DState) (line : String) : DState × String :=
       | none => (st, "bad")
   | ["netcert", order] =>
       (st, s!"wf={st.net.wfB} order={orderOKB st.net (parseNats order)}")
+  | ["forkcert", order] =>
+      -- hypotheses of KV.C06.genOps_strip_link on the loaded netlist, and the branch ↦ stem list of the model
+      let pairs := (stemList st.net).map fun (b, s) => s!"{b}:{s}"
+      (st, s!"forks={forksOKB st.net (parseNats order)} stems={",".intercalate pairs}")
   | ["wellordered", opsS] =>
       let ops := (opsS.splitOn "/").filter (· ≠ "") |>.map WaveSimD.parseOp
       (st, if KV.Sig.wellOrderedB ops then "ok" else "FAIL")
